@@ -15,6 +15,7 @@ Not decided: that the reported length equals the target's true distance (network
 import re
 
 from .common import *
+from ..tables import cdec, cwant
 from .state_common import *
 from ..callgraph import CallGraph
 from ..vra import Lin
@@ -132,9 +133,10 @@ def run(chk, tier):
     for o in e2.run(f, [e2.sym_ref(st, 'self'), ('sym', 'ttl')], st):
         d = [(vshow(a), v) for a, v, _ in o.st.decisions]
         w = [vshow(e[3]) for e in o.st.events if e[0] == 'write' and e[2] == 'lowest_ttl']
-        if d == [('Eq(self.lowest_ttl, 0)', 1)]:
+        cd = cdec(o)
+        if cd == cwant([('Eq(self.lowest_ttl, 0)', 1)]):
             rows['unset'] = w == ['ttl.0']
-        elif d == [('Eq(self.lowest_ttl, 0)', 0)]:
+        elif cd == cwant([('Eq(self.lowest_ttl, 0)', 0)]):
             rows['set'] = bool(w) and bool(re.fullmatch(r'Min\(self\.lowest_ttl, ttl\.0\)|Min\(ttl\.0, self\.lowest_ttl\)', w[0])) and len(w) == 1
         else:
             rows['other'] = False
@@ -183,13 +185,14 @@ def run(chk, tier):
             continue
         d = dict((vshow(a), v) for a, v, _ in o.st.decisions)
         lt = vshow(news[0][7][1])
-        known = d.get('discr(call:TracerState::target_ttl(state))')
-        some = d.get('is_some(call:TracerState::max_received_ttl(state))')
+        cdx = {k: (0 if isinstance(v, tuple) else v) for k, v in cdec(o).items()}
+        known = cdx.get('discr(call:TracerState::target_ttl(state))')
+        some = cdx.get('discr(call:TracerState::max_received_ttl(state))')
         if known == 1:
             row, rx = 'target-known', r'field:0\(call:TracerState::target_ttl\(state\)\)'
         elif some == 1:
-            row, rx = 'answered', (r'TimeToLive\(Min\(Sub\(call:TracerState::ttl\(state\), 1\), Add\(unwrap\(call:TracerState::max_received_ttl\(state\)\), 1\)\)\)|'
-                                   r'TimeToLive\(Min\(call:TimeToLive::sub\(call:TracerState::ttl\(state\), TimeToLive\(1\)\), call:TimeToLive::add\(unwrap\(call:TracerState::max_received_ttl\(state\)\), TimeToLive\(1\)\)\)\)')
+            row, rx = 'answered', (r'TimeToLive\(Min\(Sub\(call:TracerState::ttl\(state\), 1\), Add\(field:0\(call:TracerState::max_received_ttl\(state\)\), 1\)\)\)|'
+                                   r'TimeToLive\(Min\(call:TimeToLive::sub\(call:TracerState::ttl\(state\), TimeToLive\(1\)\), call:TimeToLive::add\(field:0\(call:TracerState::max_received_ttl\(state\)\), TimeToLive\(1\)\)\)\)')
         elif some == 0:
             row, rx = 'silent', r'TimeToLive\(0\)'
         else:
